@@ -103,6 +103,8 @@ def build_n(ncells):
         st.expected = {}
         any_none = False
         use_p_card = ch.choose('imp:p-card', [False, True])
+        # the second data card may be for a particle type named by a symbol (MCNP6: | mu-, / pi+, # heavy ions)
+        part2 = ch.choose('second-particle', ['p', '|', 'h', '/', '#', 'e']) if use_p_card else 'p'
         dicts = []
         for i in range(ncells):
             num = NUMS[i]
@@ -160,7 +162,7 @@ def build_n(ncells):
         if any_none:
             st.data.append('imp:n ' + ' '.join(compress(dn, mode)))
             if use_p_card:
-                st.data.append('imp:p ' + ' '.join(compress(dp, mode)))
+                st.data.append('imp:%s ' % part2 + ' '.join(compress(dp, mode)))
         if not any(st.expected.values()):
             ch.reject()
         # the note does not depend on which blocks of the output are switched off
